@@ -14,9 +14,10 @@ Definition init (vals : list (option Z)) : state Z expr :=
 Section Run.
   Variable refresh : bool.
   Variable forces_all : bool.
+  Variable dforces_all : bool.
   Variable ids : list pid.
-  Definition hstep := step Z veqb expr pyval (feval pname ids 0) (deps pname ids) coerce refresh forces_all.
-  Definition hrun := run Z veqb expr pyval (feval pname ids 0) (deps pname ids) coerce refresh forces_all.
+  Definition hstep := step Z veqb expr pyval (feval pname ids 0) (deps pname ids) coerce refresh forces_all dforces_all.
+  Definition hrun := run Z veqb expr pyval (feval pname ids 0) (deps pname ids) coerce refresh forces_all dforces_all.
 
   (* index of the first event the model refuses (None = whole trace accepted), and the final state *)
   Fixpoint first_refused (s : state Z expr) (tr : list (event Z expr)) (i : nat) : option nat * state Z expr :=
@@ -51,7 +52,7 @@ Definition follows_b (s : state Z expr) (q : pid) : bool :=
 Definition check_case (c : list (option Z) * list (event Z expr) * list (option Z * option Z)) : Z :=
   let '(vals, tr, final) := c in
   let s0 := init vals in
-  let '(refused, s) := first_refused refresh_after_write enable_forces_all (all_ids s0) s0 tr 0 in
+  let '(refused, s) := first_refused refresh_after_write enable_forces_all disable_forces_all (all_ids s0) s0 tr 0 in
   match refused with
   | Some _ => 1
   | None =>
